@@ -342,4 +342,10 @@ C17_Cers ==
         a1 \in {"a1"}, a2 \in {"a1", "a2"}, h1 \in Handles, h2 \in Handles,
         c \in {Ctr(0, 0), Ctr(0, 1), Ctr(65535, 65535)}, p \in {<<>>, <<"UP">>, <<"UP", "UV">>} }
 
+-----------------------------------------------------------------------------
+(* C13: every status byte as a store fault under the client                 *)
+C13_Cers ==
+    { << Cer("client", "ga", BaseCReq, [BaseEnv EXCEPT !.faults = <<b, 0, 0>>]) >> : b \in 1..255 } \cup
+    { << Cer("client", "mc", BaseCReq, [BaseEnv EXCEPT !.faults = <<b, 0, 0>>]) >> : b \in 1..255 }
+
 =============================================================================
